@@ -139,13 +139,37 @@ inline void limitsArray(Ctx& C, int kind) {
   C.end();
 }
 
+#if ARDUINOJSON_ENABLE_ARDUINO_STREAM
+// an Arduino-style Printable that hands its text to Print::write(buffer, size) in blocks of `block` bytes (0 = byte-wise)
+struct BlockPrintable : Printable {
+  std::string text;
+  size_t block;
+  BlockPrintable(const std::string& t, size_t b) : text(t), block(b) {}
+  size_t printTo(Print& p) const override {
+    size_t n = 0;
+    if (!block) {
+      for (char c : text) n += p.write(uint8_t(c));
+      return n;
+    }
+    for (size_t i = 0; i < text.size(); i += block)
+      n += p.write(reinterpret_cast<const uint8_t*>(text.data() + i), std::min(block, text.size() - i));
+    return n;
+  }
+};
+#endif
+
 inline void limitsStrings(Ctx& C) {
   const size_t MAXLEN = ARDUINOJSON_STRING_LENGTH_SIZE >= 4 ? 0 : (size_t(1) << (8 * ARDUINOJSON_STRING_LENGTH_SIZE)) - 1;
   if (!MAXLEN) return;  // 4-byte lengths cannot be reached on this host (stated in the evidence)
   for (int delta = -1; delta <= 1; delta++) {
-    for (int via = 0; via < 4; via++) {
+#if ARDUINOJSON_ENABLE_ARDUINO_STREAM
+    const int NVIA = 7;
+#else
+    const int NVIA = 4;
+#endif
+    for (int via = 0; via < NVIA; via++) {
       size_t n = MAXLEN + size_t(long(delta));
-      static const char* vias[] = {"set", "key", "deserializeJson", "deserializeMsgPack"};
+      static const char* vias[] = {"set", "key", "deserializeJson", "deserializeMsgPack", "printable-bytewise", "printable-block7", "printable-oneblock"};
       LimitCase L(C, std::string("limits:cfg=") + cfgName() + ",len" + std::to_string(ARDUINOJSON_STRING_LENGTH_SIZE) + "|script=string-len=max" +
                          (delta < 0 ? "-1" : delta > 0 ? "+1" : "") + "|via=" + vias[via]);
       C.begin(L.key);
@@ -171,6 +195,14 @@ inline void limitsStrings(Ctx& C) {
           got = doc.is<JsonString>() ? std::string(doc.as<JsonString>().c_str(), doc.as<JsonString>().size()) : "";
           break;
         }
+#if ARDUINOJSON_ENABLE_ARDUINO_STREAM
+        case 4: case 5: case 6: {
+          BlockPrintable pr(s, via == 4 ? 0 : via == 5 ? 7 : s.size() + 1);
+          reportedOk = doc.set(pr);
+          got = doc.is<JsonString>() ? std::string(doc.as<JsonString>().c_str(), doc.as<JsonString>().size()) : "";
+          break;
+        }
+#endif
         default: {
           MValue m = MValue::str(s);
           DeserializationError e = deserializeMsgPack(doc, verif::refmp::encode(m));
@@ -185,7 +217,7 @@ inline void limitsStrings(Ctx& C) {
         else if (got != s) L.fail("below-limit", "a string of " + std::to_string(n) + " bytes does not read back (got " + std::to_string(got.size()) + " bytes)");
       } else {
         if (reportedOk) L.fail("at-limit", "a string longer than the maximum was accepted (length wraps?) and reads back " + std::to_string(got.size()) + " bytes");
-        else if (via <= 1 && !doc.overflowed()) L.fail("at-limit", "refusal did not set overflowed()");
+        else if ((via <= 1 || via >= 4) && !doc.overflowed()) L.fail("at-limit", "refusal did not set overflowed()");
         if (!got.empty() && got != s) L.fail("at-limit", "a truncated / wrapped string was stored: " + std::to_string(got.size()) + " bytes");
       }
       L.common("string at limit");
